@@ -32,7 +32,7 @@ func vhOpAcceptable(op Operator) bool {
 }
 
 // vhExArg: 0 nil, 1 text, 2 empty string, 3 int, 4 Stack, 5 Condition,
-// 6 stringer, 7 bool
+// 6 stringer, 7 bool, 8 empty Stack (still an expression)
 func vhExArg(sel int) any {
 	switch sel {
 	case 0:
@@ -49,6 +49,8 @@ func vhExArg(sel int) any {
 		return Cond("in", Ne, "ner")
 	case 6:
 		return vhStringer{"strd"}
+	case 8:
+		return And()
 	}
 	return true
 }
@@ -176,7 +178,7 @@ func VH_C06_Step(p []int) {
 	case 5:
 		m.op = vhUserOp{"~=", "approx"}
 	}
-	m.ex = vhExArg([]int{0, 1, 3, 4, 5, 6}[nondetChoice(6)])
+	m.ex = vhExArg([]int{0, 1, 3, 4, 5, 6, 8}[nondetChoice(7)])
 	c.condition.kw, c.condition.op, c.condition.ex = m.kw, m.op, m.ex
 	hasErr := nondetChoice(2) == 1
 	if hasErr {
@@ -206,7 +208,7 @@ func VH_C06_Step(p []int) {
 			m.op = op
 		}
 	case 2:
-		ex := vhExArg(nondetChoice(8))
+		ex := vhExArg(nondetChoice(9))
 		c.SetExpression(ex)
 		if vhExAcceptable(ex, noNest, hasErr) {
 			m.ex = ex
@@ -227,7 +229,7 @@ func VH_C06_Hist(p []int) {
 			kw = "kw"
 		}
 		op := vhOpArg(nondetChoice(5))
-		ex := vhExArg(nondetChoice(8))
+		ex := vhExArg(nondetChoice(9))
 		c = Cond(kw, op, ex)
 		m.kw = kw
 		if vhOpAcceptable(op) {
@@ -264,7 +266,7 @@ func VH_C06_Hist(p []int) {
 				m.op = op
 			}
 		case 2:
-			ex := vhExArg(nondetChoice(8))
+			ex := vhExArg(nondetChoice(9))
 			c.SetExpression(ex)
 			if vhExAcceptable(ex, noNest, false) {
 				m.ex = ex
